@@ -13,14 +13,47 @@ import (
 	"net/http"
 	"net/http/httptest"
 	"os"
+	"os/exec"
 	"path/filepath"
+	"regexp"
 	"runtime"
 	"runtime/debug"
+	"strconv"
+	"strings"
 	"sync/atomic"
 	"time"
 )
 
-func init() { register("C17", runC17) }
+func init() {
+	register("C17", runC17)
+	if spec := os.Getenv("VERIF_C17_CHILD"); spec != "" {
+		// child role: one download through the real loader in a process of its own, so that the allocation volume measured is
+		// the loader's and nobody else's (TotalAlloc is process-wide: in the parent, servers, stores still settling and other
+		// goroutines would be counted too)
+		f := strings.SplitN(spec, "|", 3) // kind | url or file | target
+		loc := &core.CRLLocations{}
+		switch f[0] {
+		case "url":
+			loc.CRLUrl = f[1]
+		case "cdp":
+			loc.CRLDistributionPoints = []string{"ldap://directory.example/cn=crl", f[1]}
+		case "file":
+			loc.CRLFile = f[1]
+		}
+		loader, err := crlloader.DefaultCRLLoaderFactory{}.CreatePreferredCrlLoader(loc, zap.NewNop())
+		if err != nil {
+			fmt.Println("C17CHILD err", err)
+			os.Exit(0)
+		}
+		var a, b runtime.MemStats
+		runtime.GC()
+		runtime.ReadMemStats(&a)
+		lerr := loader.LoadCRL(f[2])
+		runtime.ReadMemStats(&b)
+		fmt.Printf("C17CHILD alloc=%d err=%v\n", b.TotalAlloc-a.TotalAlloc, lerr)
+		os.Exit(0)
+	}
+}
 
 // c17BuildCRLFile writes a CRL with n entries (serials base+1..base+n) signed by ca to path and returns the probes.
 func c17BuildCRLFile(ca *CA, n int, pemEnc bool, path string) (listed, unlisted *big.Int) {
@@ -41,6 +74,8 @@ func c17BuildCRLFile(ca *CA, n int, pemEnc bool, path string) (listed, unlisted 
 	must(os.WriteFile(path, out, 0600))
 	return new(big.Int).Add(base, big.NewInt(int64(n))), new(big.Int).Add(base, big.NewInt(int64(n+5)))
 }
+
+var c17ChildRe = regexp.MustCompile(`C17CHILD alloc=(\d+) err=(.*)`)
 
 const c17Ceiling = 192 << 20
 const c17Deadline = 300 * time.Second
@@ -205,41 +240,33 @@ func c17Phases(r *Run, ca *CA, small, large int) {
 	}))
 	defer srv.Close()
 	const slack = 4 << 20
-	measure := func(f func()) uint64 {
-		var a, b runtime.MemStats
-		runtime.GC()
-		runtime.ReadMemStats(&a)
-		f()
-		runtime.ReadMemStats(&b)
-		return b.TotalAlloc - a.TotalAlloc
-	}
 	for _, kind := range []string{"url", "cdp", "file"} {
 		alloc := map[int]uint64{}
 		ok := true
 		for _, n := range []int{small, large} {
-			loc := &core.CRLLocations{}
 			u := srv.URL + "/" + filepath.Base(files[n])
-			switch kind {
-			case "url":
-				loc.CRLUrl = u
-			case "cdp":
-				loc.CRLDistributionPoints = []string{"ldap://directory.example/cn=crl", u}
-			case "file":
-				loc.CRLFile = files[n]
-			}
-			loader, err := crlloader.DefaultCRLLoaderFactory{}.CreatePreferredCrlLoader(loc, zap.NewNop())
-			if err != nil {
-				r.Violate("C17 harness-no-loader", err.Error(), nil)
-				return
-			}
 			target := filepath.Join(dir, fmt.Sprintf("dl-%s-%d", kind, n))
-			var lerr error
-			alloc[n] = measure(func() { lerr = loader.LoadCRL(target) })
+			src := u
+			if kind == "file" {
+				src = files[n]
+			}
+			cmd := exec.Command(os.Args[0])
+			cmd.Env = append(os.Environ(), "VERIF_C17_CHILD="+kind+"|"+src+"|"+target)
+			outB, cerr := cmd.CombinedOutput()
+			var childErr string
+			var got uint64
+			if m := c17ChildRe.FindStringSubmatch(string(outB)); m != nil {
+				got, _ = strconv.ParseUint(m[1], 10, 64)
+				childErr = m[2]
+			} else {
+				childErr = fmt.Sprintf("no report from the child: %v %.200s", cerr, outB)
+			}
+			alloc[n] = got
 			want, _ := os.Stat(files[n])
-			got, serr := os.Stat(target)
-			if lerr != nil || serr != nil || got.Size() != want.Size() {
+			st, serr := os.Stat(target)
+			if childErr != "<nil>" || serr != nil || st.Size() != want.Size() {
 				ok = false
-				r.Violate("C17 large-crl-not-processed download="+kind, fmt.Sprintf("download of the %d-entry CRL failed: %v %v", n, lerr, serr), nil)
+				r.Violate("C17 large-crl-not-processed download="+kind, fmt.Sprintf("download of the %d-entry CRL failed: %v %v", n, childErr, serr), nil)
 			}
 			os.Remove(target)
 		}
